@@ -374,6 +374,11 @@ def run(index: RepoIndex, rep) -> None:
     rep.rule('C13.R3', 'advertised inventory by data flow', floor=10)
     rep.rule('C13.R4', 'the agent cell is separated from exits, obstacles, telepods and '
              'blocking cells (proved / refuted with witness / undecided)', floor=25)
+    rep.rule('C13.R7', 'the environment hands out the state its reset function built: '
+             'GridWorld.functional_reset returns the result of the configured reset function '
+             'unchanged', floor=1)
+    from .wiring import reset_passthrough
+    reset_passthrough(index, rep, 'C13.R7')
     rep.rule('C13.R5', 'a full wall boundary is drawn; later non-wall writes are inside it',
              floor=8)
     resets = index.registry('reset', 8)
